@@ -343,6 +343,48 @@ pub fn check(c: &Case, rec: &mut Rec) -> Result<(), String> {
         }
         rec.eval();
     }
+    // (d) second generation: the restored machine, a few instructions later, is saved again and
+    // that file restored into a fresh emulator (a save from a machine that was itself restored)
+    if steps > 0 {
+        let s2 = read_state(&mut r, machine);
+        let stack_in_ram = machine != Machine::K48 || (s2.regs.sp.wrapping_sub(1) >= 0x4000 && s2.regs.sp.wrapping_sub(2) >= 0x4000);
+        if stack_in_ram && !r.verif_cpu().halted {
+            let mut file2 = Vec::new();
+            r.save_snapshot(SnapshotRecorder::Sna(VecRecorder(&mut file2))).map_err(|x| format!("second save_snapshot failed: {:?}", x))?;
+            let s2_after = read_state(&mut r, machine);
+            if s2_after.regs != s2.regs || s2_after.ram != s2.ram || s2_after.latch != s2.latch || s2_after.border != s2.border {
+                return Err("second generation: taking the snapshot changed the restored machine".into());
+            }
+            let mut f = mk_emu(&EmuOpts::new(machine));
+            f.load_snapshot(Snapshot::Sna(MemAsset::new(file2))).map_err(|x| format!("second generation: load_snapshot of the file saved by the restored machine failed: {:?}", x))?;
+            rec.eval();
+            let l2 = read_state(&mut f, machine);
+            let mut w = s2.regs.clone();
+            w.iff1 = w.iff2;
+            let mut g = l2.regs.clone();
+            g.iff1 = g.iff2;
+            if g != w {
+                return Err(format!("second generation (save from the restored machine, load into a fresh one): registers {:x?}, saved state had {:x?}", g, w));
+            }
+            if l2.border != s2.border || (machine == Machine::K128 && (l2.latch != s2.latch || l2.locked != s2.locked)) {
+                return Err(format!(
+                    "second generation: border/latch after load {} / {:#04x} locked={}, saved state had {} / {:#04x} locked={}",
+                    l2.border, l2.latch, l2.locked, s2.border, s2.latch, s2.locked
+                ));
+            }
+            for b in 0..machine.ram_banks() as usize {
+                if l2.ram[b] != s2.ram[b] {
+                    let pos = l2.ram[b].iter().zip(s2.ram[b].iter()).position(|(x, y)| x != y).unwrap();
+                    let a = 0x4000usize + b * mach::PAGE + pos;
+                    let below_sp = machine == Machine::K48 && (a as u16 == s2.regs.sp.wrapping_sub(1) || a as u16 == s2.regs.sp.wrapping_sub(2));
+                    if !below_sp {
+                        return Err(format!("second generation: RAM bank {} offset {:#06x} is {:#04x}, saved state had {:#04x}", b, pos, l2.ram[b][pos], s2.ram[b][pos]));
+                    }
+                }
+            }
+            rec.class("second-generation-round-trip");
+        }
+    }
     let alt_differs = c.regs.af != c.regs.af_ || c.regs.bc != c.regs.bc_ || c.regs.hl != c.regs.hl_;
     if alt_differs && c.edits.len() >= 2 && c.receiver != Receiver::Fresh {
         rec.nontrivial(fnv(format!("{:?}", c).as_bytes()));
@@ -409,7 +451,7 @@ pub fn replay(run: &mut Run, phase: &str, case: &serde_json::Value) -> Result<()
 }
 
 pub const LEVEL: &str = "exploration";
-pub const RULE: &str = "case = machine x arbitrary register file (alternates, I, R, IM, IFF1/IFF2) x border x 128K latch (all 256 values incl. lock, bank 5/2 paged at 0xC000) x RAM contents (seeded pattern + sparse edits in every bank) x SP anywhere (a quarter of the cases at a 16 KiB page boundary +-2, so that the two bytes below SP lie in different pages) x receiver in {same emulator after 1..4 frames of a scrambling program, fresh, halted, stopped mid DD-chain, paging locked + other border, EI pending}. Checked: (a) registers, every RAM bank, latch and border read through hooks are identical before and after save_snapshot, and the produced file parsed by the harness' own SNA parser describes that state; (b) after load_snapshot of the produced file every carried item, the latch with its lock, every RAM byte and all 65536 CPU-visible bytes equal the saved state; (c) the next 10 instructions, with the frame interrupt arriving on the way, match the reference machine continuing from the saved state. non-trivial = alternate set differs from main set, >= 2 RAM edits, receiver not fresh; distinct = hash of the case";
+pub const RULE: &str = "case = machine x arbitrary register file (alternates, I, R, IM, IFF1/IFF2) x border x 128K latch (all 256 values incl. lock, bank 5/2 paged at 0xC000) x RAM contents (seeded pattern + sparse edits in every bank) x SP anywhere (a quarter of the cases at a 16 KiB page boundary +-2, so that the two bytes below SP lie in different pages) x receiver in {same emulator after 1..4 frames of a scrambling program, fresh, halted, stopped mid DD-chain, paging locked + other border, EI pending}. Checked: (a) registers, every RAM bank, latch and border read through hooks are identical before and after save_snapshot, and the produced file parsed by the harness' own SNA parser describes that state; (b) after load_snapshot of the produced file every carried item, the latch with its lock, every RAM byte and all 65536 CPU-visible bytes equal the saved state; (c) the next 10 instructions, with the frame interrupt arriving on the way, match the reference machine continuing from the saved state; (d) the restored machine is then saved again and that file loaded into a fresh emulator must give the state it had (second generation). non-trivial = alternate set differs from main set, >= 2 RAM edits, receiver not fresh; distinct = hash of the case";
 pub const ASSUMPTIONS: &[&str] = &[
     "48K proviso of the property (two bytes below SP are RAM) is a generator-side skip, counted; on the 48K the two bytes below SP may hold PC after a load (format)",
     "IFF1 is not carried by the format: only IFF2 is compared",
